@@ -6,6 +6,10 @@ package namematcher
 //
 // accepts(rule, host): the meaning of a relay-name pattern as documented for RelayDomainNamePattern: one trailing "$"
 // is stripped; a leading "^" makes it an exact name, otherwise it is a suffix.
+// The package keeps no mutable package-level state: activations (two decoders, two requests) cannot influence each
+// other through it.
+//@ stateless package [C06]
+//
 //@ default model int
 //@ default strings smtlib
 //@ spec func stripd(rule string) string = ite(suffixof("$", rule), substr(rule, 0, len(rule) - 1), rule)
